@@ -346,7 +346,7 @@ def oracle(ctx, cr):
     det = dict(case={k: v for k, v in m.items() if k != "args"}, line=cr.line[:600])
     ac = argclass(m)
     if cr.crash is not None:
-        ctx.violation("%s:%s:crash:%s" % (op, ac, cr.crash.kind()), "%s lhs %s rhs %s died: %s" % (op, m["sa"], m.get("sb"), cr.crash.kind()), dict(det, stderr=cr.crash.stderr[-3000:]))
+        ctx.violation("%s:%s:fault" % (op, ac), "%s lhs %s rhs %s died: %s" % (op, m["sa"], m.get("sb"), cr.crash.kind()), dict(det, stderr=cr.crash.stderr[-3000:]))
         return
     if cr.timeout:
         ctx.inconc("timeout in %s" % cr.line[:200])
@@ -359,13 +359,12 @@ def oracle(ctx, cr):
         if not err.startswith("EXC"):
             ctx.violation("%s:harness_error" % op, err[:300], det)
         else:
-            ctx.violation("%s:%s:exception" % (op, ac), "%s lhs %s rhs %s %s threw while the result was read: %s" % (op, m["sa"], m.get("sb"), {k: m[k] for k in ("n", "la", "ra", "offset", "axis1", "axis2", "keepdims") if k in m}, err[-160:]), det)
+            ctx.violation("%s:%s:fault" % (op, ac), "%s lhs %s rhs %s %s threw while the result was read: %s" % (op, m["sa"], m.get("sb"), {k: m[k] for k in ("n", "la", "ra", "offset", "axis1", "axis2", "keepdims") if k in m}, err[-160:]), det)
         return
     exp = expected(m)
     why = compare(cr.rec, exp)
     if why:
-        sym = "nothing" if "Nothing" in why else ("shape" if why.startswith("shape") or "scalar" in why or "0-dim" in why else "element")
-        ctx.violation("%s:%s:%s" % (op, ac, sym), "%s %s lhs %s rhs %s %s: %s" % (op, m["dtype"], m["sa"], m.get("sb"), {k: m[k] for k in ("n", "la", "ra", "offset", "axis1", "axis2", "keepdims") if k in m}, why), det)
+        ctx.violation("%s:%s:value" % (op, ac), "%s %s lhs %s rhs %s %s: %s" % (op, m["dtype"], m["sa"], m.get("sb"), {k: m[k] for k in ("n", "la", "ra", "offset", "axis1", "axis2", "keepdims") if k in m}, why), det)
     if exp.size > 1:
         ctx.seen((op, tuple(m["sa"]), tuple(m.get("sb", ())), str([m.get(k) for k in ("n", "la", "ra", "offset", "axis1", "axis2", "keepdims")])))
     if exp.size > 3 and len(ctx.samples) < 8 and ctx.rng.random() < 0.004:
@@ -381,7 +380,7 @@ def run(ctx):
     per_op = {}
     for cr in res:
         for (site, f0, f1) in V.hook_problems(cr, acc):
-            ctx.violation("%s:%s:hook" % (cr.m["op"], argclass(cr.m) if "sa" in cr.m else "-"), "bounds hook %s: index %d outside bound %d in %s" % (site, f0, f1, cr.line[:300]), dict(line=cr.line[:600], site=site))
+            ctx.violation("%s:%s:fault" % (cr.m["op"], argclass(cr.m) if "sa" in cr.m else "-"), "bounds hook %s: index %d outside bound %d in %s" % (site, f0, f1, cr.line[:300]), dict(line=cr.line[:600], site=site))
         if "sa" not in cr.m:
             ctx.violation("%s:crash_outside_case:%s" % (cr.m.get("src", "?"), cr.crash.kind()), "runner died outside a case: %s" % cr.crash.kind(), dict(stderr=cr.crash.stderr[-3000:]))
             continue
